@@ -98,7 +98,7 @@ def run(sc):
                 s.smsc.later(delay, conn.feed, pdu(0x80000000, 3, seq))
             else:
                 s.smsc.msgid += 1
-                body = (('id%d' % s.smsc.msgid).encode() + b'\x00') if st == 0 else b'\x00'
+                body = (('id%d' % s.smsc.msgid).encode() + b'\x00') if st == 0 else (b'\x00' if seq % 2 else b'')   # error: body may be omitted
                 s.smsc.later(delay, conn.feed, pdu(0x80000004, st, seq, body))
         orig_on_pdu = s.smsc.on_pdu
 
